@@ -386,11 +386,6 @@ package sftp
 //@   assert before call io.ReadFull#2: len(arg1) >= 1 && len(arg1) <= maxMsgLength && len(arg1) == int(length)
 //@   ensures err == nil ==> len(payload) < maxMsgLength
 
-//@ func makePacket
-//@   property C08, C07
-//@   results pkt, err
-//@   alloc-bound 4*len(p.pktBytes) + 64
-
 //@ func (*sshFxInitPacket).UnmarshalBinary
 //@   property C08, C07, C19
 //@   alloc-bound (len(old(b)) << 3) + (old(len(p.Extensions)) << 6) + 4096
@@ -407,20 +402,32 @@ package sftp
 //@   alloc-bound 4*len(b) + 64
 
 //@ func (*sshFxpExtendedPacket).UnmarshalBinary
-//@   property C08, C07
+//@   property C08, C07, C19, C02
 //@   alloc-bound 4*len(b) + 64
+//@   requires p.SpecificPacket == nil
+//@   ensures result == nil ==> specOK(p) && p.SpecificPacket != nil
+//@   ensures isErr(result, errUnknownExtendedPacket) ==> p.SpecificPacket == nil
 
 //@ func (*sshFxpExtendedPacketHardlink).UnmarshalBinary
-//@   property C08, C07
+//@   property C08, C07, C02
 //@   alloc-bound 4*len(b) + 64
+//@   ensures result == nil ==> len(b) >= 4 && p.ID == be32(b, 0)
+//@   ensures result == nil || result == errShortPacket
+//@   modifies *p
 
 //@ func (*sshFxpExtendedPacketPosixRename).UnmarshalBinary
-//@   property C08, C07
+//@   property C08, C07, C02
 //@   alloc-bound 4*len(b) + 64
+//@   ensures result == nil ==> len(b) >= 4 && p.ID == be32(b, 0)
+//@   ensures result == nil || result == errShortPacket
+//@   modifies *p
 
 //@ func (*sshFxpExtendedPacketStatVFS).UnmarshalBinary
-//@   property C08, C07
+//@   property C08, C07, C02
 //@   alloc-bound 4*len(b) + 64
+//@   ensures result == nil ==> len(b) >= 4 && p.ID == be32(b, 0)
+//@   ensures result == nil || result == errShortPacket
+//@   modifies *p
 
 //@ func (*sshFxpFsetstatPacket).UnmarshalBinary
 //@   property C08, C07
@@ -489,3 +496,227 @@ package sftp
 //@ func (*sshFxpWritePacket).UnmarshalBinary
 //@   property C08, C07
 //@   alloc-bound 4*len(b) + 64
+
+// ---------------------------------------------------------------------------
+// servers: packet manager, os-backed Server, RequestServer
+
+//@ ghost var ready int
+//@ ghost var taken int
+//@ ghost var fsWrites int
+
+//@ pred pmOK(m *packetManager) = m != nil && m.working != nil && m.sender != nil && (m.alloc == nil || m.alloc.used != nil)
+//@ pred filesOK(s *Server) = s.openFiles != nil && forall(k, string, haskey(s.openFiles, k) ==> s.openFiles[k] != nil)
+//@ pred serverOK(s *Server) = s != nil && s.serverConn != nil && (s.alloc == nil || s.alloc.used != nil) && s.pktMgr != nil && pmOK(s.pktMgr) && filesOK(s)
+
+//@ func (file).ReadAt
+//@   trusted
+//@   results n, err
+//@   ensures 0 <= n && n <= len(b)
+//@   modifies bytes
+
+//@ func (file).WriteAt
+//@   trusted
+//@   results n, err
+//@   ensures 0 <= n && n <= len(b)
+//@   modifies nothing
+
+//@ func (*Server).getHandle
+//@   property C07, C11
+//@   results f, ok
+//@   requires filesOK(svr)
+//@   ensures ok ==> f != nil
+//@   ensures ok <==> haskey(svr.openFiles, handle)
+//@   modifies nothing
+
+//@ func (*Server).nextHandle
+//@   property C07, C11
+//@   requires svr.openFiles != nil && f != nil
+//@   requires filesOK(svr)
+//@   ensures filesOK(svr)
+//@   modifies svr.handleCount, mapof svr.openFiles
+
+//@ func (*Server).closeHandle
+//@   property C07, C11
+//@   requires filesOK(svr)
+//@   ensures filesOK(svr)
+//@   modifies mapof svr.openFiles
+//@ pred specOK(p *sshFxpExtendedPacket) = p.SpecificPacket == nil || ((typeis(p.SpecificPacket, *sshFxpExtendedPacketStatVFS) || typeis(p.SpecificPacket, *sshFxpExtendedPacketPosixRename) || typeis(p.SpecificPacket, *sshFxpExtendedPacketHardlink)) && p.SpecificPacket.id() == p.ID)
+//@ pred extOK(p requestPacket) = typeis(p, *sshFxpExtendedPacket) ==> specOK(p.(*sshFxpExtendedPacket))
+//@ pred reqType(p requestPacket) = typeis(p, *sshFxInitPacket) || typeis(p, *sshFxpLstatPacket) || typeis(p, *sshFxpOpenPacket) || typeis(p, *sshFxpClosePacket) || typeis(p, *sshFxpReadPacket) || typeis(p, *sshFxpWritePacket) || typeis(p, *sshFxpFstatPacket) || typeis(p, *sshFxpSetstatPacket) || typeis(p, *sshFxpFsetstatPacket) || typeis(p, *sshFxpOpendirPacket) || typeis(p, *sshFxpReaddirPacket) || typeis(p, *sshFxpRemovePacket) || typeis(p, *sshFxpMkdirPacket) || typeis(p, *sshFxpRmdirPacket) || typeis(p, *sshFxpRealpathPacket) || typeis(p, *sshFxpStatPacket) || typeis(p, *sshFxpRenamePacket) || typeis(p, *sshFxpReadlinkPacket) || typeis(p, *sshFxpSymlinkPacket) || typeis(p, *sshFxpExtendedPacket)
+
+//@ func makePacket
+//@   property C08, C07
+//@   results pkt, err
+//@   alloc-bound 4*len(p.pktBytes) + 64
+//@   ensures pkt != nil ==> reqType(pkt)
+//@   ensures pkt == nil ==> err != nil && !isErr(err, errUnknownExtendedPacket)
+//@   ensures pkt != nil && (err == nil || isErr(err, errUnknownExtendedPacket)) ==> extOK(pkt)
+
+//@ func (*packetManager).readyPacket
+//@   property C02, C14
+//@   requires s != nil && s.working != nil && pkt.responsePacket != nil
+//@   update before send responses#1: ghost.ready = ghost.ready + 1
+//@   ensures ghost.ready == old(ghost.ready) + 1
+
+//@ func statusFromError
+//@   property C07, C02, C10
+//@   ensures result != nil && result.ID == id
+//@   ensures err == nil ==> result.Code == sshFxOk
+
+//@ func handlePacket
+//@   property C07, C02
+//@   requires serverOK(s) && p.requestPacket != nil && reqType(p.requestPacket) && extOK(p.requestPacket)
+//@   assert before call (*packetManager).readyPacket#1: arg1.orderid == p.orderid
+//@   assert before call (*packetManager).readyPacket#1: arg1.responsePacket != nil
+//@   assert before call (*packetManager).readyPacket#1: arg1.responsePacket.id() == p.requestPacket.id()
+//@   deadcode ret1
+//@   ensures result == nil
+//@   ensures ghost.ready == old(ghost.ready) + 1
+//@   ensures serverOK(s)
+
+//@ func os.Stat
+//@   trusted
+//@   results fi, err
+//@   ensures err == nil ==> fi != nil
+//@   modifies nothing
+
+//@ func os.Lstat
+//@   trusted
+//@   results fi, err
+//@   ensures err == nil ==> fi != nil
+//@   modifies nothing
+
+//@ func (file).Stat
+//@   trusted
+//@   results fi, err
+//@   ensures err == nil ==> fi != nil
+//@   modifies nothing
+
+//@ func (file).Readdir
+//@   trusted
+//@   results fis, err
+//@   ensures forall(i, 0 <= i && i < len(fis) ==> fis[i] != nil)
+//@   modifies nothing
+
+//@ func os.OpenFile
+//@   trusted
+//@   results f, err
+//@   ensures err == nil ==> f != nil
+//@   modifies nothing
+
+//@ func (*sshFxpOpenPacket).respond
+//@   property C07, C02, C09
+//@   requires serverOK(svr)
+//@   ensures result != nil && result.id() == p.ID
+//@   ensures typeis(result, *sshFxpHandlePacket) || typeis(result, *sshFxpStatusPacket)
+//@   ensures serverOK(svr)
+
+//@ func (*sshFxpReaddirPacket).respond
+//@   property C07, C02, C16
+//@   requires serverOK(svr)
+//@   ensures result != nil && result.id() == p.ID
+//@   ensures typeis(result, *sshFxpNamePacket) || typeis(result, *sshFxpStatusPacket)
+//@   ensures serverOK(svr)
+
+//@ func (*sshFxpSetstatPacket).respond
+//@   property C07, C02, C17
+//@   requires serverOK(svr)
+//@   ensures result != nil && result.id() == p.ID
+//@   ensures typeis(result, *sshFxpStatusPacket)
+//@   ensures serverOK(svr)
+
+//@ func (*sshFxpFsetstatPacket).respond
+//@   property C07, C02, C17
+//@   requires serverOK(svr)
+//@   ensures result != nil && result.id() == p.ID
+//@   ensures typeis(result, *sshFxpStatusPacket)
+//@   ensures serverOK(svr)
+
+//@ func (*sshFxpExtendedPacket).respond
+//@   property C07, C02, C19
+//@   requires serverOK(svr) && specOK(p)
+//@   ensures result != nil && result.id() == p.ID
+//@   ensures typeis(result, *sshFxpStatusPacket) || typeis(result, *StatVFS)
+//@   ensures serverOK(svr)
+
+//@ func statvfsFromStatfst
+//@   property C07
+//@   results st, err
+//@   requires stat != nil
+//@   ensures err == nil && st != nil
+
+//@ func getStatVFSForPath
+//@   property C07
+//@   results st, err
+//@   ensures err == nil ==> st != nil
+
+//@ func (*sshFxpOpenPacket).unmarshalFileStat
+//@   property C07
+//@   results fs, err
+//@   ensures err == nil ==> fs != nil
+//@   modifies nothing
+
+//@ func (*sshFxpSetstatPacket).unmarshalFileStat
+//@   property C07
+//@   results fs, err
+//@   ensures err == nil ==> fs != nil
+//@   modifies nothing
+
+//@ func (*sshFxpFsetstatPacket).unmarshalFileStat
+//@   property C07
+//@   results fs, err
+//@   ensures err == nil ==> fs != nil
+//@   modifies nothing
+
+//@ func (*sshFxpExtendedPacketStatVFS).respond
+//@   property C07, C02
+//@   requires serverOK(svr)
+//@   ensures result != nil && result.id() == p.ID
+//@   ensures typeis(result, *sshFxpStatusPacket) || typeis(result, *StatVFS)
+//@   ensures serverOK(svr)
+
+//@ func (*sshFxpExtendedPacketPosixRename).respond
+//@   property C07, C02
+//@   requires serverOK(s)
+//@   ensures result != nil && result.id() == p.ID
+//@   ensures typeis(result, *sshFxpStatusPacket)
+//@   ensures serverOK(s)
+
+//@ func (*sshFxpExtendedPacketHardlink).respond
+//@   property C07, C02
+//@   requires serverOK(s)
+//@   ensures result != nil && result.id() == p.ID
+//@   ensures typeis(result, *sshFxpStatusPacket)
+//@   ensures serverOK(s)
+
+//@ func (*packetManager).workerChan
+//@   property C14
+//@   requires s != nil && runWorker != nil
+//@   ensures result != nil
+//@   assume-frame
+//@   modifies nothing
+// (frame assumed: the runWorker callbacks passed by both servers only register with a WaitGroup and spawn a goroutine)
+
+//@ func (*Server).sftpServerWorker
+//@   property C07, C02, C09
+//@   requires serverOK(svr)
+//@   channel global:type:sftp.orderedRequest invariant m.requestPacket != nil && reqType(m.requestPacket) && extOK(m.requestPacket)
+//@   loop 1 invariant serverOK(svr)
+//@   loop 1 invariant ghost.ready - ghost.taken == old(ghost.ready) - old(ghost.taken)
+//@   loop 1 ghost ready, taken
+//@   update after recv pktChan#1: ghost.taken = ite(ret1, ghost.taken + 1, ghost.taken)
+//@   deadcode ret2
+//@   ensures result == nil
+//@   ensures ghost.ready - ghost.taken == old(ghost.ready) - old(ghost.taken)
+
+//@ func (*Server).Serve
+//@   property C07
+//@   requires serverOK(svr) && svr.Reader != nil
+//@   loop 1 invariant serverOK(svr) && svr.Reader != nil
+//@   assert before send pktChan#1: pkt != nil && (err == nil || isErr(err, errUnknownExtendedPacket))
+
+//@ func (*RequestServer).serveLoop
+//@   property C07
+//@   requires rs != nil && rs.serverConn != nil && (rs.alloc == nil || rs.alloc.used != nil) && rs.Reader != nil && rs.pktMgr != nil && pmOK(rs.pktMgr)
+//@   loop 1 invariant rs != nil && rs.serverConn != nil && (rs.alloc == nil || rs.alloc.used != nil) && rs.Reader != nil && rs.pktMgr != nil && pmOK(rs.pktMgr)
+//@   assert before send pktChan#1: pkt != nil && (err == nil || isErr(err, errUnknownExtendedPacket))
